@@ -253,7 +253,7 @@ StepNMember ==
      viol' = viol \cup
        (IF Ev.err
         THEN (IF "panic" \in DOMAIN Ev THEN NTags({"C10"}, n, "membership query failed internally (panic)") ELSE
-              IF nst[n].pend = 0 /\ InW(Ev) = 0 /\ ~nst[n].unknown /\ Ev.d \in DOMAIN (IF c1 > 0 THEN hmaps[c1] ELSE <<>>) /\ (Ev.latest \/ hmaps[c1][Ev.d] <= Ev.q)
+              IF nst[n].pend = 0 /\ InW(Ev) = 0 /\ ~nst[n].unknown /\ c1 <= Len(hmaps) /\ Ev.d \in DOMAIN (IF c1 > 0 THEN hmaps[c1] ELSE <<>>) /\ (Ev.latest \/ hmaps[c1][Ev.d] <= Ev.q)
               THEN NTags({"C01", "C06"}, n, "query for an inserted event failed") ELSE {})
         ELSE IF c1 < 1 \/ c1 > Len(log) \/ ~ViewOKW(n, c1, InW(Ev))
              THEN NTags({"C05", "C10"}, n, "current version of the reply is not a state of this node")
@@ -349,6 +349,16 @@ StepHang ==
   /\ viol' = viol \cup {Tag("C10", "queries issued during an insertion never returned")}
   /\ UNCHANGED <<log, hmap, hroot, hyps, hmaps, reopened, dumps, nacked, lost, nst, blist>>
 
+(* the restore scenario names the node that is being brought up to date by state transfer: whatever
+   goes wrong on it afterwards is (also) a failure of C09, whether or not a transfer took place *)
+StepRejoin ==
+  /\ Ev.a \in {"rejoin", "noconverge"}
+  /\ nst' = [nst EXCEPT ![Ev.n].restored = TRUE]
+  /\ viol' = viol \cup (IF Ev.a = "noconverge"
+                         THEN {Tag("C09", "the node brought back by state transfer never reached the state of the other replicas [node " \o ToString(Ev.n) \o "]")}
+                         ELSE {})
+  /\ UNCHANGED <<log, hmap, hroot, hyps, hmaps, reopened, dumps, nacked, lost, blist>>
+
 StepCReset ==
   /\ Ev.a = "reset"
   /\ log' = <<>> /\ hmap' = <<>> /\ hroot' = D(NB) /\ hyps' = <<>> /\ reopened' = FALSE
@@ -365,7 +375,7 @@ CNext ==
   /\ l <= Len(Trace)
   /\ l' = l + 1
   /\ (StepPBegin \/ StepIndexReset \/ StepPEnd \/ StepAck \/ StepBoot \/ StepKill \/ StepExit \/ StepStart \/ StepStop \/ StepLoad \/ StepDump
-      \/ StepNMember \/ StepNIncr \/ StepBackup \/ StepDelBackup \/ StepRestoreBackup \/ StepBStart \/ StepBAdd \/ StepBStop \/ StepHang \/ StepCReset \/ StepCInfo)
+      \/ StepNMember \/ StepNIncr \/ StepRejoin \/ StepBackup \/ StepDelBackup \/ StepRestoreBackup \/ StepBStart \/ StepBAdd \/ StepBStop \/ StepHang \/ StepCReset \/ StepCInfo)
 
 CSpec == CInit /\ [][CNext]_cvars
 =============================================================================
